@@ -502,6 +502,15 @@ func runStress(r *ev.Run, rc *reach) {
 			r.Count("vfs_stress_rounds_skipped_after_two_hangs", 1)
 		}
 	})
+	timed(r, "file-stress", func() {
+		n := r.Pick(8, 160)
+		hangs := 0
+		for i := 0; i < n && hangs < 2; i++ {
+			if fileStressRound(r, rc, i) != roundFinished {
+				hangs++
+			}
+		}
+	})
 	timed(r, "nfs-stress", func() {
 		nNFS := r.Pick(30, 600)
 		hangs := 0
@@ -526,6 +535,9 @@ func runStress(r *ev.Run, rc *reach) {
 			}
 		}
 	})
+	r.Floor("file-stress:persistency-node-applies-racing-mutators", 100000)
+	r.Floor("file-stress:calls-overlapping-the-other-side-on-the-same-file", 10000)
+	r.Floor("stress-round-finished:file", 3)
 	r.Floor("lockpile-backoff", 50)
 	r.Floor("overlap:opposite-direction-renames", 50)
 	r.Floor("overlap:parent-to-child-rename-racing-directory-rename", 20)
